@@ -114,16 +114,12 @@ fn gen_bitmap(r: &mut Rng) -> Vec<u8> {
 }
 
 fn gen_svc_params(r: &mut Rng) -> Vec<u8> {
-    let mut v = Vec::new();
     let n = match r.below(6) { 0 => 0, 1..=3 => 1, _ => 1 + r.below(5) as usize };
-    let mut key: u32 = r.below(3) as u32;
+    let mut key: u32 = 1 + r.below(2) as u32;
+    let mut params: Vec<(u16, Vec<u8>)> = Vec::new();
     for _ in 0..n {
         if key > 65535 { break; }
         let val: Vec<u8> = match key {
-            0 => { // mandatory: ascending keys, non-empty, no key0
-                let mut m = Vec::new(); let mut k = 1 + r.below(3) as u16;
-                for _ in 0..1 + r.below(3) { m.extend(k.to_be_bytes()); k += 1 + r.below(3) as u16; }
-                m }
             1 => { // alpn: length-prefixed ids
                 let mut m = Vec::new();
                 for _ in 0..1 + r.below(3) { let n = 1 + r.below(6) as usize; m.push(n as u8); m.extend(octets(r, n)); }
@@ -136,10 +132,21 @@ fn gen_svc_params(r: &mut Rng) -> Vec<u8> {
             7 => { let n = 1 + r.below(20) as usize; octets(r, n) } // dohpath
             _ => gen_blob(r, 30),
         };
-        v.extend((key as u16).to_be_bytes());
+        params.push((key as u16, val));
+        key += 1 + match r.below(4) { 0 => r.below(70000) as u32, _ => r.below(3) as u32 };
+    }
+    // mandatory (key 0): a non-empty ascending subset of the keys that are present
+    if !params.is_empty() && r.chance(1, 3) {
+        let mut m = Vec::new();
+        for (k, _) in &params { if r.chance(1, 2) { m.extend(k.to_be_bytes()); } }
+        if m.is_empty() { m.extend(params[0].0.to_be_bytes()); }
+        params.insert(0, (0, m));
+    }
+    let mut v = Vec::new();
+    for (k, val) in params {
+        v.extend(k.to_be_bytes());
         v.extend((val.len() as u16).to_be_bytes());
         v.extend(val);
-        key += 1 + match r.below(4) { 0 => r.below(70000) as u32, _ => r.below(3) as u32 };
     }
     v
 }
@@ -285,7 +292,7 @@ fn round_trip(rec: &Rec, tname: &str, k: char, kname: &str) -> Verdict {
     let mut first: Option<String> = None;
     for origin in [None, Some("origin.test.")] {
         let got = match read_text(&full, origin) {
-            Err(p) => { let c = classify(rec, tname, kname); let c = if c.starts_with("roundtrip_") { "panic_reader".to_string() } else { format!("{}_reader_panic", c) };
+            Err(p) => { let c = classify(rec, tname, kname, ""); let c = if c.starts_with("roundtrip_") { "panic_reader".to_string() } else { format!("{}_reader_panic", c) };
                 return Verdict::Fail(c, format!("type={} kind={} text={} panic={}", tname, kname, printable(&full), p)) }
             Ok(g) => g,
         };
@@ -308,7 +315,7 @@ fn round_trip(rec: &Rec, tname: &str, k: char, kname: &str) -> Verdict {
             }
         }
     }
-    match first { None => Verdict::Ok, Some(d) => Verdict::Fail(classify(rec, tname, kname), d) }
+    match first { None => Verdict::Ok, Some(d) => { let c = classify(rec, tname, kname, &d); Verdict::Fail(c, d) } }
 }
 
 /// An unquoted position where the writer produced an empty token (two
@@ -330,13 +337,23 @@ fn has_empty_token(simple: &str) -> bool {
 
 /// Root-cause class of a failing record (specific word first, the per-type
 /// class as the fallback).
-fn classify(rec: &Rec, tname: &str, kname: &str) -> String {
+fn classify(rec: &Rec, tname: &str, kname: &str, why: &str) -> String {
     let ow = rec.owner().as_slice();
     if ow.len() > 1 && ow[1] == b'$' { return "owner_leading_dollar".into(); }
     let rd = rdata_wire(rec.data());
     if tname == "TXT" && rd.is_empty() { return "txt_no_strings".into(); }
     if tname == "IPSECKEY" && rd.len() > 1 && rd[1] == 0 { return "ipseckey_gateway_none".into(); }
     if let Ok(Ok(s)) = write_rec(rec, 's') { if has_empty_token(&s) { return format!("empty_field_{}", tname); } }
+    if tname == "SVCB" || tname == "HTTPS" {
+        // irregular glue: name the reader's complaint
+        if let Some(i) = why.find("reader error: ") {
+            let msg = &why[i + 14..];
+            let msg = msg.splitn(2, ": ").nth(1).unwrap_or(msg); // drop line:col
+            let slug: String = msg.split_whitespace().take(4).collect::<Vec<_>>().join("_").chars().filter(|c| c.is_ascii_alphanumeric() || *c == '_').collect();
+            return format!("svcb_params_{}", slug.to_lowercase());
+        }
+        return "svcb_params_differs".into();
+    }
     format!("roundtrip_{}_{}", tname, kname)
 }
 
@@ -689,8 +706,11 @@ fn main() {
                     if *cnt <= 2 && !class.contains("panic") {
                         let (m, d) = minimise(&case, tname, k, kname, &class);
                         out.check(false, &class, &case_line(&m, k), &format!("(minimised) {}", d));
-                    } else {
+                    } else if *cnt <= 5 {
                         out.check(false, &class, &c, &detail);
+                    } else {
+                        // keep oracle.txt (200 lines) representative of every class
+                        out.count(&format!("more_failures_{}", class));
                     }
                 }
             }
@@ -710,6 +730,7 @@ fn main() {
         for (kname, k) in KINDS {
             idx += 1; if !out.wants(idx) { continue; }
             let c = format!("generic {} {} {} {} {} {}", k, class, ttl, rt, hex(&owner), hex(&data));
+            let gclass = if owner.len() > 1 && owner[1] == b'$' { "owner_leading_dollar".to_string() } else { format!("roundtrip_GENERIC_{}", kname) };
             out.begin(&c);
             out.oracle_case(&c, true, &format!("generic_{}", kname));
             let u2 = urec.clone();
@@ -717,10 +738,10 @@ fn main() {
             let text = match text { Ok(t) => t, Err(p) => { out.check(false, "panic_writer", &c, &p); continue; } };
             match read_text(text.as_bytes(), None) {
                 Err(p) => out.check(false, "panic_reader", &c, &p),
-                Ok(Err(e)) => out.check(false, &format!("roundtrip_GENERIC_{}", kname), &c, &format!("text={} :: reader error: {}", printable(text.as_bytes()), e)),
+                Ok(Err(e)) => out.check(false, &gclass, &c, &format!("text={} :: reader error: {}", printable(text.as_bytes()), e)),
                 Ok(Ok(v)) => {
                     let ok = v.len() == 1 && v[0].owner().name_eq(urec.owner()) && v[0].class() == urec.class() && v[0].ttl() == urec.ttl() && v[0].data() == urec.data();
-                    out.check(ok, &format!("roundtrip_GENERIC_{}", kname), &c, &format!("text={} :: read back {} records, first rdata {}", printable(text.as_bytes()), v.len(),
+                    out.check(ok, &gclass, &c, &format!("text={} :: read back {} records, first rdata {}", printable(text.as_bytes()), v.len(),
                         v.first().map(|g| hex(&rdata_wire(g.data()))).unwrap_or_default()));
                 }
             }
@@ -729,5 +750,6 @@ fn main() {
 
     let mut failing: Vec<String> = per_type_stats.iter().filter(|(_, v)| v.1 > 0).map(|(k, v)| format!("{}:{}/{}", k, v.1, v.0)).collect();
     failing.sort();
-    out.finish(&[("unbuildable_cases", format!("{}", unbuildable)), ("failing_type_kinds", json_str(&failing.join(" ")))]);
+    let classes: Vec<String> = minimised.iter().map(|(k, v)| format!("{}:{}", k, v)).collect();
+    out.finish(&[("unbuildable_cases", format!("{}", unbuildable)), ("failing_type_kinds", json_str(&failing.join(" "))), ("failure_classes", json_str(&classes.join(" ")))]);
 }
